@@ -9,7 +9,7 @@ pat="${1:-.}"; n="${2:-6}"
 export VERIF_EVIDENCE_DIR="$PWD/.build/mutant-evidence"
 root=$(mktemp -d /tmp/verif-regress.XXXXXX)
 trap 'for k in $(seq 1 $n); do git -C /repo worktree remove --force "$root/wt$k" 2>/dev/null; done; git -C /repo worktree prune; rm -rf "$root"' EXIT
-seeds=$(ls seeded | grep -E "$pat")
+seeds=$(ls -d seeded/*/ | xargs -n1 basename | grep -E "$pat")
 worker() {
   k=$1; wt="$root/wt$k"; hs="$root/h$k"
   git -C /repo worktree add --detach "$wt" HEAD >/dev/null 2>&1 || { echo "worker $k: cannot create worktree"; return; }
